@@ -389,13 +389,13 @@ func (kc *KeyConditionImpl) checkRangeRightBound(
 	rgs[prefixSize] = NewRange(rightKeys[prefixSize], rightKeys[prefixSize], true, true)
 	mark, err := kc.checkInAnyRange(keySize, leftKeys, rightKeys, false, true, rgs, dataTypes, prefixSize+1, initMask, callBack)
 	if err != nil {
-		return mark, false, err
+		return res, false, err
 	}
 	res = res.Or(mark)
 	if res.isComplete() {
-		return mark, true, nil
+		return res, true, nil
 	}
-	return mark, false, nil
+	return res, false, nil
 }
 
 // MayBeInRange is used to check whether the condition is likely to be in the target range.
